@@ -16,7 +16,7 @@ from ..cfg import build_cfg
 from ..facts import MODEL_CLASSES, readable_attrs, ctor_keywords
 from ..fold import Folder, format_tables
 from ..model import AnalysisError, unparse, walk_no_nested
-from ..astutil import atoms_at
+from ..astutil import atoms_at, truthiness_tests
 from ..dataflow import private_closure
 from ..logic import known
 from ..symtext import Expander, effect_calls, ordered_iterations, strip_order_keeping
@@ -108,6 +108,7 @@ def run(prog, rep):
               "save_odml_list does not (name the node by the item's id, link exactly that node from the parent, pass item and node on): "
               "triples %s, dispatch %s" % ([t[:3] for t in tr], disp), sl.where,
               witness="a Section's attributes end up on another node / the node is not reachable from its parent")
+    link_every_iteration(prog, rep, "PROV-7")
     sd = W.lookup_method("save_document")
     g = build_cfg(sd)
     dx = Expander(sd, g)
@@ -272,6 +273,31 @@ def run(prog, rep):
                       "%s drops %s when falsy (`%s`)" % (sf.name, sorted(risky), unparse(n.test)[:60]), where(sf, n),
                       witness="uncertainty = 0 is missing from the export")
 
+    # reader side of TRUTH-3: an object fetched from the graph is never tested for truthiness (a Literal 0 / 0.0 is falsy)
+    for fname in ("Document", "Section", "Property"):
+        pf = Rd.lookup_method(PARSE[fname])
+        risky = dict((k, v) for k, v in falsy_set_attributes(prog, fname).items() if k in tabs[fname]["_rdf_map"] and k not in ("sections", "properties"))
+        bad = []
+        for h in private_closure(pf):
+            hx = Expander(h, inline=prog)
+            single = set()       # locals bound to one graph object (graph.value(...), an element of graph.objects(...))
+            for n in walk_no_nested(h.node):
+                if isinstance(n, ast.Assign) and len(n.targets) == 1 and isinstance(n.targets[0], ast.Name) and isinstance(n.value, ast.Call) \
+                        and isinstance(n.value.func, ast.Attribute) and n.value.func.attr in ("value", "toPython"):
+                    single.add(n.targets[0].id)
+            for n in ast.walk(h.node):
+                tests = [n.test] if isinstance(n, (ast.If, ast.IfExp, ast.While)) else []
+                for t0 in tests:
+                    for txt, pol, e0 in truthiness_tests(t0):
+                        if isinstance(e0, ast.Name) and e0.id in single:
+                            bad.append((h, n, txt))
+        if not bad:
+            rep.ok("TRUTH-3", "%s tests presence, not truthiness, of graph objects" % pf.name, "ok", pf.where)
+        for h, n, txt in bad:
+            rep.check(not risky, "TRUTH-3", "%s: truthiness of the graph object `%s`" % (pf.name, txt), "no falsy-but-set attribute in this format",
+                      "%s drops an attribute when the literal read from the graph is falsy (`%s`): %s are set values" % (pf.name, txt, sorted(risky)),
+                      where(h, n), witness="an uncertainty of 0 is exported but comes back as None")
+
     # ----------------------------------------------------------------- RID-1
     rep.rule("RID-1", "the namespace ends with '#'; the three parse_* functions store <uri>.split('#', 1)[1] under 'id'; parse_document "
                       "returns {'Document': ..., 'odml-version': FORMAT_VERSION}; mandatory-name check raises ParserException")
@@ -370,3 +396,25 @@ def _strip_format_module(prog, f, text):
         if getattr(r, "name", None) == "odml.format" and "." in text:
             return text.split(".", 1)[1]
     return text
+
+
+def link_every_iteration(prog, rep, rule="PROV-7"):
+    """save_odml_list: on every way through one iteration the child node is linked from its parent (shared with C20: a missing
+    containment triple makes the queries miss the object)."""
+    from .c15 import _iteration_paths
+    W = prog.cls("RDFWriter")
+    sl = W.lookup_method("save_odml_list")
+    g = build_cfg(sl)
+    x = Expander(sl, g, inline=prog)
+    item = "EACH(%s)" % sl.params[3]
+    nodeexpr = "URIRef(ODML_NS + str(%s.id))" % item
+    loops = [n for n in g.nodes if n.kind == "for" and x.text(n.ast.iter, n) == sl.params[3]]
+    links = set(t[3].id for t in triples(prog, sl) if t[:3] == (sl.params[1], sl.params[2], nodeexpr))
+    ok = len(loops) == 1 and bool(links)
+    if ok:
+        paths = _iteration_paths(g, loops[0])
+        rep.analysed["paths"] += len(paths)
+        ok = bool(paths) and all(any(n.id in links for n, _ in p) for p in paths)
+    rep.check(ok, rule, "save_odml_list links every child from its parent", "the link triple lies on every path through an iteration",
+              "an iteration of save_odml_list can end without adding (parent, predicate, child node): the child is not reachable from its parent",
+              sl.where, witness="two exported documents sharing a Section id: the second document's link is missing and queries miss the hit")
